@@ -99,12 +99,34 @@ def _asA(x, like: A):
     return A((), lift(x))
 
 
+def _scalar_obj(x):
+    b = np.empty((), dtype=object)
+    b[()] = x
+    return b
+
+
 def m_where(c, *rest):
     if isinstance(c, EA) and len(rest) == 0:
         return np.where(_INTERP[0].concrete_mask(c))
     if len(rest) != 2:
         raise Unsupported("np.where with one argument on symbolic data")
     a, b = rest
+    if any(isinstance(x, EA) for x in (c, a, b)):
+        # explicit arrays: element-by-element if-then-else with numpy's own broadcasting (no forking: the choice stays in the term)
+        if any(isinstance(x, A) for x in (c, a, b)):
+            raise Unsupported("np.where mixing explicit and generic-element arrays")
+        raw = [x.a if isinstance(x, EA) else (x if isinstance(x, np.ndarray) else _scalar_obj(x)) for x in (c, a, b)]
+
+        def pick(cc, aa, bb):
+            ce = boo(sym._lift_s(cc).e)
+            if ce is sp.true:
+                return sym._lift_s(aa)
+            if ce is sp.false:
+                return sym._lift_s(bb)
+            return S(ite(ce, num(sym._lift_s(aa).e), num(sym._lift_s(bb).e)))
+
+        r = np.frompyfunc(pick, 3, 1)(*raw)
+        return EA(r) if isinstance(r, np.ndarray) else r
     ops = [x for x in (c, a, b) if isinstance(x, A)]
     if not ops:
         return S(ite(boo(lift(c)), lift(a), lift(b)))
@@ -368,7 +390,19 @@ def build_models(interp):
     reg(np.logical_and, _ew2(lambda a, b: sp.And(boo(a), boo(b))))
     reg(np.logical_or, _ew2(lambda a, b: sp.Or(boo(a), boo(b))))
     reg(np.logical_xor, _ew2(lambda a, b: sp.Xor(boo(a), boo(b))))
-    reg(np.logical_not, _ew(lambda e: sp.Not(boo(e))))
+    def m_logical_not(x, *a, **k):
+        """negation of truth values: the operand is taken as a boolean term (no detour through 0/1 numbers)"""
+        if a or any(v is not None for v in k.values()):
+            raise Unsupported("logical_not with out= / where=")
+        if isinstance(x, EA):
+            return EA(np.frompyfunc(lambda q: S(sp.Not(boo(sym._lift_s(q).e))), 1, 1)(x.a))
+        if isinstance(x, A):
+            return A(x.axes, sp.Not(boo(x.e)), x.dom)
+        if hasattr(x, "__nss_apply__"):
+            return x.__nss_apply__(lambda e: sp.Not(boo(e)))
+        return S(sp.Not(boo(lift(x))))
+
+    reg(np.logical_not, m_logical_not)
     reg(np.less, _ew2(lambda a, b: sp.Lt(num(a), num(b))))
     reg(np.greater, _ew2(lambda a, b: sp.Gt(num(a), num(b))))
     def m_isclose(a, b, rtol=1e-05, atol=1e-08, equal_nan=False):
